@@ -302,7 +302,10 @@ def check(A):
                           e.expr) or \
                     match("content_types.get(_x.split('.')[-1], 'application/octet-stream')",
                           e.expr)
-                A.check(c is not None and txt(c['x']).endswith("['filename']"),
+                fn_w = [txt(w_.expr) for w_ in p_.events if w_.kind == 'write' and
+                        txt(w_.target).endswith("['filename']")]
+                A.check(c is not None and (txt(c['x']).endswith("['filename']") or
+                                           (fn_w and txt(c['x']) == fn_w[-1])),
                         'C20.content-type', 'the content type is looked up by the text after '
                         'the LAST dot of the file name', A.site(gs, e.node), key='static-ext',
                         detail=txt(e.expr),
